@@ -203,5 +203,7 @@ def _min_error_dual(
     problem.set_objective("min", picos.trace(y_var))
     solution = problem.solve(solver=solver)
 
-    measurements = [problem.get_constraint(k).dual for k in range(len(vectors))]
+    # picos reports the dual variable of a complex LMI as the entrywise conjugate of the operator that pairs with the
+    # states through Tr(rho_i M_i); conjugate it so that the returned operators attain the reported value.
+    measurements = [problem.get_constraint(k).dual.H.T for k in range(len(vectors))]
     return solution.value, measurements
